@@ -24,7 +24,7 @@ META = {
             'The chain is closed for every tree size: get_rtreeindex builds a well-formed covering tree (rt_tree, rt_spans; itertools `chunks` contract assumed), the layout writer stores it with correct child pointers (rt_layout), the search over covering spans equals the linear scan (rt_search). What connects the in-memory tree to the bytes the reader parses is rt_layout\'s decode statement; zlib is assumed.'),
     'C06': ('whole-file summary: per-value update exact on integers (items, bases) and shape-pinned on floats (bw_batch); bigBed sweep accounting with exact depth segments (bb_sweep); cross-chromosome fold incl. "a chromosome without covered bases contributes no min/max" (sum_acc); initial processor state (create); the summary and count are stored at the offsets the header names (hdr, zoom_levels); life-cycle (procs).',
             'NOT decided: float rounding (floats are uninterpreted with totality/determinism axioms: shape only), IndexList behaves as a sequence (assumed shim contract).'),
-    'C07': ('bigWig zoom: per-level tiling invariant with exact bases_covered == data bases in the record span, disjoint ordered records of length <= resolution, every data base in exactly one record, batches 1..=items_per_slot, nothing pending at chromosome end, termination (bw_zoom); zoom sizes positive, sorted, deduplicated, <= 10 levels (zoom_sizes, zoom_levels); zoom block bytes == published 32-byte layout, span covers records (zoom_enc), decoder and iterator (zoom_dec, iters, query_glue); offsets (sec_offsets); initial state (create).',
+    'C07': ('bigWig zoom: per-level tiling invariant with exact bases_covered == data bases in the record span, disjoint ordered records of length <= resolution, every data base in exactly one record, batches 1..=items_per_slot, nothing pending at chromosome end, termination (bw_zoom); zoom sizes positive, sorted, deduplicated, <= 10 levels (zoom_sizes, zoom_levels); zoom block bytes == published 32-byte layout, span covers records (zoom_enc), decoder and iterator (zoom_dec, iters, query_glue); offsets (sec_offsets); initial state (create); every level is stepped exactly once per value with the real look-ahead, nothing before or after the level loop skips it (zoom_outer); the two-pass zoom writer whole (zoom_vals_whole, zoom_tail); header room (write_pre).',
             'NOT decided: f64->f32 narrowing error, value.end + size <= u32::MAX is an unchecked precondition, task pipeline.'),
     'C08': ('bigBed zoom: tiling layer over the flushed depth segments with exact covered-base counts and min/max from the actual depth (bb_zoom, bb_sweep via procs), shared zoom encoder/decoder/levels/offsets units as C07.',
             'NOT decided: as C07.'),
@@ -32,15 +32,15 @@ META = {
             'NOT decided: zlib stream validity (libdeflater assumed). The advertised buffer is the maximum over all data and zoom blocks in both writers (chrom_pipe, zoom_tail).'),
     'C10': ('readers decode any spec-conforming bytes: block decoders proved against arithmetic decode specs with a symbolic byte order (bw_dec types 1-3, bb_dec, zoom_dec), header/zoom directory decode (info), R-tree node/item decoders for both byte orders (rt_readnode; rt_items Kani complete), node filter and search (rt_nodes, rt_search), iterators/glue/caches (iters, query_glue, cache, bw_values).',
             'NOT decided: multi-level chromosome trees (read_chrom_tree_block), libdeflater inflate.'),
-    'C12': ('staging buffer: sequential protocol of the real TempFileBufferWriter/TempFileBuffer methods against a ghost `written` stream; every order of whole operations delivers d0 ++ written (tfb).',
-            'ASSUMED, not proved: each method touches shared state through single linearizable swaps, so every interleaving is equivalent to an order of whole operations; condvar wake-ups / deadlock freedom not modelled.'),
+    'C12': ('staging buffer: sequential protocol of the real TempFileBufferWriter/TempFileBuffer methods against a ghost `written` stream; every order of whole operations delivers d0 ++ written (tfb); a consumer that arrives before the producer has published reads the cell only after waiting (the token distinguishes the cell\'s current from its eventual value).',
+            'ASSUMED, not proved: each method touches shared state through single linearizable swaps, so every interleaving is equivalent to an order of whole operations; that a wait returns at all (wake-ups, deadlock freedom) is not modelled: `wait_closed` returns the value the cell holds once the producer has published.'),
     'C13': ('refusal as an IFF with no state change on Err for bigWig and bigBed process_val (bw_batch, bb_batch, procs); source-side order/refusal propagation (feed); every loop in every unit has a proved termination measure (zoom tiling, zoom-count loops, sweep, zoom_sizes: no zero resolution reaches the tiling loop; get_rtreeindex level loop incl. empty input: rt_tree); malformed lines refused on the serial and the parallel path, a chromosome that starts a second run refused (bedparse, feed, feed_par, chrom_ids); no overflow panics in the zoom level choice; hand-off channels sized for one message per chromosome (zoom_tail); absence of panics = overflow/index/assert obligations under stated preconditions.',
             'NOT decided: "never hangs" for the concurrent task pipeline (schedules; the pipeline code is verified sequentialised, R1/R2).'),
-    'C15': ('gap filling: FillValues::next enumerates exactly the specified gapless tiling (fill); merge_into pairwise split/sum (Kani complete, merge_into); merge tool clip/adjust/threshold closures (mv_adjust).',
-            'NOT decided: ValueIter 50 000-base window accumulator and output naming - no function boundary within reach; stated in DESIGN §6 C15.'),
+    'C15': ('gap filling: FillValues::next enumerates exactly the specified gapless tiling (fill); merge_into pairwise split/sum (Kani complete, merge_into); the k-way merge through the 50 000-base window for all u32 coordinates (value_iter); merge tool: clip/adjust/threshold closures and their order (mv_adjust, merge_wiring), output names, queries from base 0, feeding protocol, bedGraph/bigWig agreement, grouped merges are plain sums (merge_tool).',
+            'NOT decided: float rounding (uninterpreted floats: shape only); the fold over the sections inside one window is an assumed R9 fold of the proved per-section contract; thread schedules of the bigWig output.'),
     'C16': ('command-line converters, the sequential core: bigwigtobedgraph / bigbedtobed write one line per record of ONE range query per wanted chromosome, in file order, with start/end honoured only together with a chromosome (so a restricted output is exactly the range-query result), rest columns verbatim; the multi-threaded writers hand the per-chromosome texts over in chromosome order, which equals the single-threaded text given the same per-chromosome lines (conv_out); bedgraphtobigwig / bedtobigbed hand every option to its writer slot and end in exactly one write call on the given input for every (threads, parallel, single-pass, stdin) combination (conv_opts); every input line becomes one record with the fields of that line or a refusal (bedparse). Relative to the C01/C02/C03/C04 contracts of the library.',
             'NOT decided: thread schedules and blocking (R1 sequentialisation; C11 is not claimed); `compat_args` / clap: the UCSC flag spellings are macro-generated string matching outside both verifiers; number formatting and parsing (ryu, `{}`, parse::<f32>) are uninterpreted; the chrom.sizes parser; `--zoom` mode. Observations recorded in DESIGN 11.3 (dropped producer JoinHandle: a failing reopen truncates the multi-threaded output silently; options accepted but never plumbed).'),
-    'C17': ('per-region statistics: size, bases, weighted sum fold, min/max folds, mean0, mean, NaN when uncovered - exact on integers, shape-pinned on floats (stats), relative to the C03 query contract (bw_dec); row text in both the threaded and the single-threaded copy (avg_rows); values-over-bed per-base fill (vob).',
+    'C17': ('per-region statistics: size, bases, weighted sum fold, min/max folds, mean0, mean, NaN when uncovered - exact on integers, shape-pinned on floats (stats), relative to the C03 query contract (bw_dec); row text in both the threaded and the single-threaded copy (avg_rows); values-over-bed per-base fill (vob); the tools\' loops whole: one query / one statistics call per input line with that line\'s own fields, one row per line in input order, errors returned, threaded reassembly in chunk order (cli_loops); the name column (avg_names); line parsing (bedparse).',
             'NOT decided: thread-count independence (schedules); precondition start <= end of the region is not established by parse_bed (recorded in NOTES).'),
     'C18': ('FileView window invariant and seek/read semantics == isolated range for all offsets (fview); chunking cuts only at line starts, covers the file once, terminates (chunks); indexer: every run start in a probed interval is recorded, sorted by position, repeated chromosome reported as not grouped (index).',
             'NOT decided: recovery path of FileView after an I/O error; BufReader transparency. OPEN FINDING (known_findings.json): an ungrouped file whose interleaving the bisection never probes is indexed as grouped.'),
